@@ -655,6 +655,89 @@ class Contexts(Part):
         return res
 
 
+class Notations(Part):
+    name = "every_notation_of_an_ipv6_address"
+    desc = ("addresses with a zero group at each of the 8 positions, with two zero runs, all zero, and their last-bit "
+            "neighbours, written in every valid notation ('::' for every sub-run of zero groups, also a single group; "
+            "dotted-quad tail): one image per address whatever the notation, and the applied mapping is prefix-preserving")
+
+    def __init__(self, tier, seed):
+        self.tier, self.seed = tier, seed
+
+    def cases(self):
+        return [{"B": B, "entry": e} for B in (0, 8) for e in ("anonymize_io", "anonymize_ip_addr")]
+
+    def _addresses(self):
+        out = []
+        for k in range(8):
+            g = [0x2001, 0xdb8, 0x1, 0x2, 0x3, 0x4, 0x7, 0x5]
+            g[k] = 0
+            out.append(g)
+            if k < 7:
+                g2 = list(g)
+                g2[k + 1] = 0
+                out.append(g2)
+        out += [[0] * 8, [0] * 7 + [1], [1] + [0] * 7, [1, 0, 0, 2, 0, 0, 0, 3], [0xfe80, 0, 0, 0, 0xa, 0, 0, 0xb],
+                [0, 0, 0, 0, 0, 0xffff, 0x102, 0x304]]
+        vals = []
+        for g in out:
+            x = 0
+            for v in g:
+                x = (x << 16) | v
+            vals += [x, x ^ 1]
+        return list(dict.fromkeys(vals))
+
+    def run(self, case):
+        import io
+
+        from mc import seams
+        from netconan.anonymize_files import FileAnonymizer
+        from netconan import ip_anonymization
+
+        res = Res()
+        lines, meta = [], []
+        for a in self._addresses():
+            for t in refs.v6_notations(a):
+                for u in (t, t.upper()):
+                    lines.append("peer %s end" % u)
+                    meta.append((a, u))
+        if "only" in case:
+            keep = [i for i, m in enumerate(meta) if m[1] == case["only"]]
+            lines, meta = [lines[i] for i in keep], [meta[i] for i in keep]
+        with seams.capture_logs():
+            if case["entry"] == "anonymize_io":
+                fa = FileAnonymizer(anon_pwd=False, anon_ip=True, salt="saltForTest", preserve_suffix_v6=case["B"])
+                out = io.StringIO()
+                fa.anonymize_io(io.StringIO("".join(x + "\n" for x in lines)), out)
+                got = out.getvalue().split("\n")[:-1]
+            else:
+                an = ip_anonymization.IpV6Anonymizer("saltForTest", preserve_suffix=case["B"])
+                got = [ip_anonymization.anonymize_ip_addr(an, ln, False) for ln in lines]
+        res.transitions = len(lines)
+        image = {}
+        for (a, t), ln, g in zip(meta, lines, got):
+            res.evals += 1
+            tok = g[len("peer "): -len(" end")] if g.startswith("peer ") and g.endswith(" end") else None
+            v = refs.v6_value(tok) if tok else None
+            res.nt(t)
+            if v is None or (tok == t and a not in (v,)):
+                res.violation("notation-not-replaced-by-an-address", "%r -> %r" % (ln, g), dict(case, only=t))
+                continue
+            if a in image and image[a][0] != v:
+                res.violation("image-depends-on-the-notation",
+                              "%s is written %s and maps to %s, written %s it maps to %s" % (
+                                  refs.v6_text(a), image[a][1], refs.v6_text(image[a][0]), t, refs.v6_text(v)), dict(case, only=t))
+                continue
+            image.setdefault(a, (v, t))
+        if "only" not in case:
+            bad = check_map([(a, image[a][0]) for a in sorted(image)], 128)
+            if bad:
+                res.violation("cpl-not-preserved-by-applied-mapping|notations", bad[1], case)
+            res.out(tuple(sorted(v[0] for v in image.values())))
+            res.samples.append({"case": case, "lines": len(lines), "addresses": len(image)})
+        return res
+
+
 def parts(tier, seed):
     return [SmallWidth(tier, seed), FullWidth(tier, seed), LazyReal(tier, seed), StatesPart(tier, seed),
-            LongHistory(tier, seed), FilePipeline(tier, seed), CliNetworks(tier, seed), SecondAnonymizer(tier, seed), Contexts(tier, seed)]
+            LongHistory(tier, seed), FilePipeline(tier, seed), CliNetworks(tier, seed), SecondAnonymizer(tier, seed), Contexts(tier, seed), Notations(tier, seed)]
